@@ -1032,6 +1032,32 @@ func scoLocalTypes(c *Ctx, r *R, clause *ast.CaseClause, conds string, pos strin
 		}
 		return true
 	})
+	// a type declared in a function is also in scope in that function's func literals (a type is
+	// not a captured variable: it lives in a global): the resolver does not skip the entries of an
+	// enclosing function, it answers them (unless the literal has a name of its own that hides it)
+	enclosing := false
+	ast.Inspect(resolver.Body, func(n ast.Node) bool {
+		ifs, ok := n.(*ast.IfStmt)
+		if !ok {
+			return true
+		}
+		cs := nosp(c.Src(ifs.Cond))
+		if !strings.Contains(cs, ".locals!=") && !strings.Contains(cs, ".locals==") {
+			return true
+		}
+		if strings.Contains(cs, "||") {
+			return true // lumped with the name test: the entry is just skipped
+		}
+		ast.Inspect(ifs, func(m ast.Node) bool {
+			if rs, ok := m.(*ast.ReturnStmt); ok && len(rs.Results) == 2 && isIdent(rs.Results[1], "true") {
+				enclosing = true
+			}
+			return true
+		})
+		return true
+	})
+	r.check(enclosing, "local type visible in func literals", c.Pos(resolver), "a type of an enclosing function resolves inside a func literal",
+		resolver.Name.Name+" skips the local types of enclosing functions: inside `mk := func() *T { return &T{n: 1} }` a function-local T resolves at package level — silently the package's T (0 instead of 0.5, a foreign field), or NEWSTRUCT fails with `Object is nil` when there is none")
 	r.check(shadow, "variable shadows local type", c.Pos(resolver), "a variable declared after the type wins",
 		resolver.Name.Name+" no longer compares the variable's slot with the slots in use at the type declaration: a variable declared after a function-local type of the same name does not shadow it (reads see the type's prototype)")
 	// the table is block scoped: End() drops the entries of the closing block
